@@ -106,7 +106,10 @@ def pred_beat_goto_continuity(case, ctx):
     r, e = _a(ref), _a(est)
     gk = dict(goto_threshold=case["goto_threshold"], goto_mu=case["goto_mu"], goto_sigma=case["goto_sigma"])
     gv = ctx.call(beat.goto, r, e, **gk)
-    _cmp("beat.goto", gv, ob.goto(ref, est, case["goto_threshold"], case["goto_mu"], case["goto_sigma"]), case)
+    want_g = ob.goto(ref, est, case["goto_threshold"], case["goto_mu"], case["goto_sigma"])
+    if want_g is None:
+        ctx.skip("goto: a beat error, the track mean or its std within 1e-9 of its threshold")
+    _cmp("beat.goto", gv, want_g, case)
     if gv not in (0, 1, 0.0, 1.0):
         raise Violation("beat.goto returned %r (binary score)" % (gv,))
     ck = dict(continuity_phase_threshold=case["continuity_phase_threshold"], continuity_period_threshold=case["continuity_period_threshold"])
